@@ -2,7 +2,7 @@
 
 use std::{fmt, future::Future, marker::PhantomData};
 
-use crux_core::{command, Command};
+use crux_core::command;
 use http_types::{
     convert::DeserializeOwned,
     headers::{HeaderName, ToHeaderValues},
@@ -13,8 +13,8 @@ use serde::Serialize;
 use crate::{
     expect::{ExpectBytes, ExpectJson, ExpectString, ResponseExpectation},
     middleware::Middleware,
-    protocol::{HttpRequest, HttpResult, ProtocolRequestBuilder},
-    HttpError, Request, Response,
+    protocol::HttpRequest,
+    Client, HttpError, Request, Response,
 };
 
 pub struct Http<Effect, Event> {
@@ -590,21 +590,13 @@ where
         let req = self.req.expect("RequestBuilder::build called twice");
 
         command::RequestBuilder::new(|ctx| async move {
-            let operation = req
-                .into_protocol_request()
+            // send through a client, like the capability API does, so that the middleware
+            // attached to the request runs
+            let response = Client::new(ctx).send(req).await?;
+
+            Response::<Vec<u8>>::new(response)
                 .await
-                .expect("should be able to convert request to protocol request");
-
-            let result = Command::request_from_shell(operation)
-                .into_future(ctx)
-                .await;
-
-            match result {
-                HttpResult::Ok(response) => Response::<Vec<u8>>::new(response.into())
-                    .await
-                    .and_then(|r| self.expectation.decode(r)),
-                HttpResult::Err(error) => Err(error),
-            }
+                .and_then(|r| self.expectation.decode(r))
         })
     }
 
